@@ -109,7 +109,14 @@ func BaseRole(ev *pw.Event) string {
 		if cv.Kind == pw.KField && cv.Field != nil && namedTypeName(cv.Field.Type()) == "logFunc" {
 			return "Log"
 		}
+		// a value of the logger type is a logger wherever it is held: field, parameter of a helper, local
+		if cv.Type != nil && namedTypeName(cv.Type) == "logFunc" {
+			return "Log"
+		}
 		if cv.Kind == pw.KParam && cv.Obj != nil {
+			if namedTypeName(cv.Obj.Type()) == "logFunc" {
+				return "Log"
+			}
 			return "DynParam:" + cv.Obj.Name()
 		}
 		if cv.Kind == pw.KField && cv.Field != nil {
